@@ -516,6 +516,13 @@ struct T16 {
               const G tmp(s.so3(), s.template r3<0>(), s.template r3<1>(), s.template r3<2>());
               with_mut(c, [&](auto& m) { m = tmp; });
               done = true;
+            } else if constexpr (requires { s.template part<0>(); }) {
+              // Bundle(parts...) from the parts of the source, read through the source's storage kind
+              [&]<std::size_t... I>(std::index_sequence<I...>) {
+                const G tmp(s.template part<I>()...);
+                with_mut(c, [&](auto& m) { m = tmp; });
+              }(std::make_index_sequence<(std::size_t)L::n>{});
+              done = true;
             }
           });
           if (done) {
@@ -773,6 +780,53 @@ struct T16 {
             });
           });
         }
+        break;
+      }
+      case K_MOVED_VIEW_WRITE: {
+        allow(c, 0, N, true);
+        std::memmove(mi(c, r), mi(c, sr), sizeof(S) * N);
+        with_mut(c, [&](auto& m) {
+          smooth::Map<G> tmp(m);
+          smooth::Map<G> m2(std::move(tmp));
+          with_src(c, [&](const auto& s) { m2 = s; });
+        });
+        break;
+      }
+      case K_HELPERS: {
+        const G val = value_at(mi(c, r));
+        auto helpers = [&](const auto& v, unsigned char* buf, int& n) {
+          emit_scalar(buf, n, static_cast<S>(v.dof()));
+          if constexpr (requires { v.eulerAngles(); }) {
+            emit(buf, n, v.eulerAngles());
+            emit(buf, n, v.project_so2().coeffs());
+          }
+          if constexpr (requires { v.angle_cw(); }) {
+            emit_scalar(buf, n, v.angle());
+            emit_scalar(buf, n, v.angle_cw());
+            emit_scalar(buf, n, v.angle_ccw());
+            emit(buf, n, v.unit_complex());
+            emit_scalar(buf, n, v.u1().real());
+            emit_scalar(buf, n, v.u1().imag());
+            emit(buf, n, v.lift_so3().coeffs());
+          }
+          if constexpr (requires { v.lift_se3(); }) {
+            emit(buf, n, v.isometry().matrix());
+            emit(buf, n, v.lift_se3().coeffs());
+          }
+          if constexpr (requires { v.project_se2(); }) {
+            emit(buf, n, v.isometry().matrix());
+            emit(buf, n, v.project_se2().coeffs());
+          }
+          if constexpr (requires { v.scaling(); }) {
+            emit_scalar(buf, n, v.angle());
+            emit_scalar(buf, n, v.scaling());
+            emit(buf, n, v.so2().coeffs());
+            emit_scalar(buf, n, v.c1().real());
+            emit_scalar(buf, n, v.c1().imag());
+          }
+        };
+        helpers(val, c.exp, c.exp_bytes);
+        with_view(c, [&](const auto& v) { helpers(v, c.out, c.out_bytes); });
         break;
       }
       case K_MAP_MOVE_ASSIGN: {
